@@ -56,6 +56,8 @@ func genIsolationPlan(seed uint64, tier string) *Plan {
 	}
 	c.Faults.MinLat = 50 * time.Microsecond
 	c.Faults.MaxLat = 500 * time.Microsecond
+	// now and then the proxy's own datagram write fails (ENOBUFS): that relay is lost, nothing of it may linger
+	c.Faults.UDPWriteErrPct = g.pick2(0, 0, 3, 10)
 	n := g.rng(5, 30)
 	if g.chance(15) {
 		n = g.rng(30, 200)
@@ -120,6 +122,13 @@ func genIsolationPlan(seed uint64, tier string) *Plan {
 			if bodyLen > 0 {
 				op.Data = rewriteCL(data, hdrEnd, g.intn(bodyLen))
 				op.S["shape"] = "under-declared"
+			}
+		case 4:
+			if g.chance(40) {
+				// a NAT keep-alive: nothing but CRLF (it ends before any header section: discarded)
+				op.Data = []byte(g.pick("\r\n\r\n", "\r\n", "\n", " \r\n"))
+				op.S["shape"] = "cut-in-headers"
+				op.S["keepalive"] = "1"
 			}
 		}
 		// most arrivals are simultaneous bursts
@@ -205,6 +214,21 @@ func execIsolation(t *testing.T, p *Plan) *Result {
 				v("garbled-emission", "", "", "emission #%d is not a decodable message of one datagram: %v\n%s", e.E.Seq, e.Err, clip(string(e.E.Data), 300))
 			}
 		}
+		// relays lost to a failed write of the proxy: what it tried to send is held to the same purity rule
+		failedByID := map[string]int{}
+		for _, f := range w.N.FailedUDP {
+			fid := ""
+			if m, _, err := sipwire.Parse(f.Data); err == nil {
+				fid = msgID(m)
+			}
+			failedByID[fid]++
+			for _, m := range markerRe.FindAllSubmatch(f.Data, -1) {
+				if string(m[1]) != fid {
+					v("foreign-bytes-in-emission", fid, "failed-write", "the datagram the proxy tried to send for %s (the write failed) contains the marker of datagram %s\n%s", fid, m[1], clip(string(f.Data), 400))
+					break
+				}
+			}
+		}
 		reused := 0
 		prevLen := map[int]int{}
 		for i := range p.Ops {
@@ -220,6 +244,10 @@ func execIsolation(t *testing.T, p *Plan) *Result {
 			sig := "shape=" + shape
 			switch shape {
 			case "intact":
+				if len(got) == 0 && failedByID[op.ID] == 1 {
+					w.stat("relay-lost-to-write-error")
+					continue
+				}
 				if len(got) != 1 {
 					v("intact-datagram-not-relayed-once", op.ID, sig, "intact datagram %s (%d bytes) produced %d emissions", op.ID, len(op.Data), len(got))
 					continue
@@ -258,6 +286,7 @@ func execIsolation(t *testing.T, p *Plan) *Result {
 		q.Ops = []Op{*soloOp}
 		q.Replay = true
 		q.Tape = nil
+		q.Cfg.Faults.UDPWriteErrPct = 0
 		var alone []byte
 		w2 := runWorld(t, &q, func(w2 *World) {
 			l := q.Cfg.Listens[soloOp.Listen]
